@@ -59,6 +59,30 @@ def run_C18(chk):
             jfs = rng.choice([0, 0, 1, 500000000000000, 999999999999999, rng.randrange(10**15)])
             if rng.random() < 0.4 and Num > 1 and I64MIN <= (sec // Num) * Num: sec = (sec // Num) * Num      # exactly on a tick boundary
             lines.append('joinc %d %d %d %d %s %d' % (Num, lo, hi, sec, rep, jfs)); meta.append(('joinc', Num, lo, hi, sec))
+    # the public parse() template into those targets: text -> detail::parse -> join_seconds, with the seconds
+    # field at 59 / 60 / 00 around tick boundaries and around the limits of the representation
+    from . import civil as CV
+    for (Num, rep, lo, hi) in JOIN_COARSE:
+        for _ in range(per // 20):
+            r = rng.random()
+            if r < 0.4: sec = rng.choice([lo, hi, lo - 1, hi + 1, lo + 1, hi - 1]) * Num + rng.choice([-61, -60, -2, -1, 0, 1, 59, 60, Num - 1, Num, Num + 1])
+            elif r < 0.7: sec = rng.randrange(-3 * Num - 120, 3 * Num + 121)
+            else: sec = rng.randrange(-10**11, 10**11)
+            if not (-10**15 < sec < 10**15): sec = rng.randrange(-10**9, 10**9)
+            leap = rng.random() < 0.5           # spell the second as :60 of the minute before when it is a :00
+            cs = CV.civil_of_sec(sec)
+            if leap and cs[5] == 0:
+                c1 = CV.civil_of_sec(sec - 1)
+                txt = '%d-%02d-%02d %02d:%02d:60' % c1[:5]
+            else:
+                txt = '%d-%02d-%02d %02d:%02d:%02d' % cs
+            lines.append('subparse %d %d %d %s %s' % (Num, lo, hi, rep, txt.encode().hex())); meta.append(('subparse', Num, lo, hi, sec, txt))
+    # floating-point representations with a period of one second or coarser: values num / 2^e, exact in float and double
+    for (N, rep) in ((1, 'f64'), (60, 'f64'), (3600, 'f64'), (86400, 'f64'), (1, 'f32'), (3600, 'f32')):
+        for _ in range(per // 40):
+            e = rng.choice([1, 2, 3, 4, 8, 10])
+            num = rng.choice([-1, 1, -3, 3, rng.randrange(-2000, 2000), rng.randrange(-2**20, 2**20) if rep == 'f64' else rng.randrange(-2**12, 2**12)])
+            lines.append('subfloat %d %d %d %s' % (N, num, e, rep)); meta.append(('subfloat', N, num, e))
     for D in (10**3, 10**6, 10**9, 10**15):
         for _ in range(per // 4):
             lim = I64MAX // D
@@ -112,6 +136,25 @@ def run_C18(chk):
                 chk.report('join_seconds(%d s) into %d-second ticks of range [%d,%d] = `%s`, expected `%s`' % (sec, Num, lo, hi, out, want),
                            {'op': lines[i], 'implementation': out, 'model': mo[i], 'specification': want})
             else: nontriv.add(lines[i])
+        elif m[0] == 'subfloat':
+            _, N, num, e = m
+            sec = (num * N) // 2**e
+            cs = CV.civil_of_sec(sec)
+            want = 'S %s | %s' % (CV.fmt(cs), CV.fmt(cs))
+            chk.count('subfloat:%s' % ('negative-fraction' if num < 0 and (num * N) % 2**e else 'other'))
+            if out != want:
+                chk.report('lookup/convert of a floating-point time_point of %d/2^%d ticks of %d s give `%s`; the whole second at or below the instant is `%s`' % (num, e, N, out, want),
+                           {'op': lines[i], 'implementation': out, 'model': mo[i], 'specification': want}, sig='subfloat')
+            else: nontriv.add(lines[i])
+        elif m[0] == 'subparse':
+            _, Num, lo, hi, sec, txt = m
+            q = sec // Num
+            want = 'ok %d' % q if lo <= q <= hi else 'false'
+            chk.count('subparse:' + want.split()[0] + (':60' if txt.endswith(':60') else ''))
+            if out != want:
+                chk.report('parse("%%Y-%%m-%%d %%H:%%M:%%S", "%s") into %d-second ticks of range [%d,%d] = `%s`, expected `%s` (floor, failure when it does not fit)' % (txt, Num, lo, hi, out, want),
+                           {'op': lines[i], 'implementation': out, 'model': mo[i], 'specification': want}, sig='subparse')
+            else: nontriv.add(lines[i])
         else:
             _, D, sec, fs = m
             v = sec * D + fs * D // 10**15
@@ -128,7 +171,7 @@ def run_C18(chk):
     chk.cov['distinct_nontrivial'] = len(nontriv)
     chk.cov['rule'] = ('split_seconds instantiated for the panel of the property (int64 nano/micro/milli/seconds, int32 minutes/hours, int8/int16 seconds/minutes, 1/3-second, femtosecond ticks): '
                        'counts at every remainder class around the epoch, at each representation limit, random; join_seconds for whole-second-or-coarser targets (floor + range check) and sub-second targets; '
-                       'compared model vs implementation (value and UB flag) and against exact rational arithmetic in Python; non-trivial = distinct ops that matched the exact value')
+                       'the public parse() template into the same targets (seconds field 59/60/00 around tick boundaries and limits); compared model vs implementation (value and UB flag) and against exact rational arithmetic in Python; non-trivial = distinct ops that matched the exact value')
     chk.assumptions.append("libstdc++ duration_cast/time_point_cast follow the standard's formula (modelled, not verified)")
     for i in (0, per, len(lines) // 2, len(lines) - 1):
         chk.sample({'op': lines[i], 'model': mo[i], 'implementation': io[i]})
